@@ -73,6 +73,22 @@ def sequential_part(chk, exprs):
         d = session.scratch_dir()
         try:
             specs = gen_specs(rng)
+            # every sixth scenario: two custom gauge adapters with the SAME class name in two files (one reads the values in
+            # another unit): which parser a run gets is decided by its suite, not by which run happens to be executed first
+            two_adapters = i % 6 == 5 and len(specs) >= 2
+            if two_adapters:
+                for sub, scale in (("a", ""), ("b", " * 1000")):
+                    os.makedirs(os.path.join(d, sub))
+                    with open(os.path.join(d, sub, "my_log.py"), "w") as fh:
+                        fh.write("from rebench.interop.rebench_log_adapter import RebenchLogAdapter\n\n\nclass MyLog(RebenchLogAdapter):\n"
+                                 "    def parse_data(self, data, run_id, invocation):\n"
+                                 "        dps = super(MyLog, self).parse_data(data, run_id, invocation)\n"
+                                 "        for dp in dps:\n            for m in dp.get_measurements():\n                m.value = m.value%s\n"
+                                 "        return dps\n" % scale)
+                for k, s_ in enumerate(specs):
+                    s_.suite = "S_" + s_.name
+                    s_.adapter = {"MyLog": "%s/my_log.py" % "ab"[k % 2]}
+                chk.count("scenarios_with_two_adapters_of_one_name")
             failing = [b for b in ["make exe", "make suite1"] if rng.random() < 0.25]
             faulty = rng.random() < 0.2
             argv = ["-f"] if faulty else []
@@ -80,7 +96,7 @@ def sequential_part(chk, exprs):
             prior = rng.random() < 0.4
             base = os.path.join(d, "base.data")
             if prior:
-                mh.run_impl(specs, base, "batch", argv, failing, interrupt_at=rng.randint(1, 4))
+                mh.run_impl(specs, base, "batch", argv, failing, interrupt_at=rng.randint(1, 4), config_dir=d)
             case = dict(specs=[s.describe() for s in specs], failing_builds=failing, faulty=faulty, prior=prior)
             ref = None
             variants = [("batch", None), ("round-robin", None)] + [("random", rng.randint(0, 10 ** 6)) for _ in range(seeds)]
@@ -88,7 +104,7 @@ def sequential_part(chk, exprs):
                 f = os.path.join(d, "%s-%s.data" % (sched, seed))
                 if prior and os.path.exists(base):
                     shutil.copy(base, f)
-                obs = mh.run_impl(specs, f, sched, argv, failing, seed=seed)
+                obs = mh.run_impl(specs, f, sched, argv, failing, seed=seed, config_dir=d)
                 c2 = dict(case, scheduler=sched, seed=seed)
                 if isinstance(obs.result, str):
                     chk.violation("C11 a session ends without an exception under every scheduler", c2, "no exception",
@@ -124,7 +140,7 @@ def sequential_part(chk, exprs):
                                       ("rows", "measurement lines in the data file"), ("builds", "build scripts executed"),
                                       ("result", "session result")):
                         if summary[key] != ref[key]:
-                            diff = {k_: (ref[key].get(k_), summary[key].get(k_)) for k_ in set(ref[key]) | set(summary[key])
+                            diff = {str(k_): (ref[key].get(k_), summary[key].get(k_)) for k_ in set(ref[key]) | set(summary[key])
                                     if ref[key].get(k_) != summary[key].get(k_)} if isinstance(ref[key], dict) else (ref[key], summary[key])
                             chk.violation("C11 %s are the same under every scheduler as under batch" % what, c2, "as under batch",
                                           json.dumps(diff, default=str)[:1500])
